@@ -266,6 +266,10 @@ structure DState where
       non-excluded steps that do not -/
   ord2Ok  : Nat := 0
   ord2Bad : Nat := 0
+  /-- steps inside / outside the fragment of `C05_fragment_dl` (`fragOkDL`: everything but the seeks; acks of
+      handed-out deliveries; tie-closed rounds of the jobs that delete deliveries) -/
+  fragDLIn  : Nat := 0
+  fragDLOut : Nat := 0
 
 /-- the refinement obligation of one store step -/
 def ordCheck (ds : DState) (st' : St) (excluded : Bool) : DState × Option String :=
@@ -286,7 +290,7 @@ def handle (ds : DState) (line : String) : DState × String :=
   | op :: rest =>
     let fs := parseFields rest
     if op == "reset" then ({ lineNo := ds.lineNo }, "ok")
-    else if op == "ordstats" then (ds, s!"R checked={ds.ordChecked} excluded={ds.ordExcluded} stamps={ds.ordStamps} fragin={ds.fragIn} fragout={ds.fragOut} ties={ds.ord2Ok} tiesbad={ds.ord2Bad}")
+    else if op == "ordstats" then (ds, s!"R checked={ds.ordChecked} excluded={ds.ordExcluded} stamps={ds.ordStamps} fragin={ds.fragIn} fragout={ds.fragOut} ties={ds.ord2Ok} tiesbad={ds.ord2Bad} fragdlin={ds.fragDLIn} fragdlout={ds.fragDLOut}")
     else if op == "dump" then
       let mine := dump ds.st.db
       match rest with
@@ -347,6 +351,8 @@ def handle (ds : DState) (line : String) : DState × String :=
           else
             let (st', out) := step ds.st o
             let ds := if decide (fragOk ds.st o) then { ds with fragIn := ds.fragIn + 1 } else { ds with fragOut := ds.fragOut + 1 }
+            let ds := if decide (fragOkDL ds.st o) then { ds with fragDLIn := ds.fragDLIn + 1 }
+              else if op == "seek_time" || op == "seek_snap" then ds else { ds with fragDLOut := ds.fragDLOut + 1 }
             let (ds, ordBad) := ordCheck ds st' (op == "seek_time" || op == "seek_snap")
             let ds' := { ds with st := st' }
             let exp := (fget fs "exp").getD ""
